@@ -379,18 +379,34 @@ def check_tobytes(ctx, repo, fr, tob, CM):
     else:
         emits = [e for e in b.effects if e.kind == 'call' and isinstance(e.call.func, ast.Attribute) and e.call.func.attr == 'append' and len(e.call.args) == 1]
         parts_ = [e.call.args[0] for e in emits]
+        acc_var = None
+        if not emits:
+            # parts += [hole, chunk]   /   parts.extend([hole, chunk])
+            for c in lp.sub['carried']:
+                v = b.env.get(c)
+                if isinstance(v, ast.BinOp) and isinstance(v.op, ast.Add) and canon(v.left) == '%s@phi%d' % (c, n) and isinstance(v.right, (ast.List, ast.Tuple)):
+                    parts_, acc_var = list(v.right.elts), c
+            ext = [e for e in b.effects if e.kind == 'call' and isinstance(e.call.func, ast.Attribute) and e.call.func.attr == 'extend' and len(e.call.args) == 1
+                   and isinstance(e.call.args[0], (ast.List, ast.Tuple))]
+            if not parts_ and len(ext) == 1:
+                parts_, emits = list(ext[0].call.args[0].elts), [ext[0], ext[0]]
+            if acc_var is not None:
+                emit_kind = 'augmented'
+                class _E:            # line numbers for the reports
+                    lineno = lp.lineno
+                emits = [_E, _E]
     begin_var = None
     for c in lp.sub['carried']:
         v = b.env.get(c)
         if v is not None and lin(v) == {K: 1, 'len(%s)' % V: 1}:
             begin_var = c
-    desc = '; '.join(e.text() if e.kind != 'yield' else 'yield %s' % canon(e.value) for e in b.effects)
+    desc = '; '.join(e.text() if e.kind != 'yield' else 'yield %s' % canon(e.value) for e in b.effects) or '; '.join(canon(x) for x in parts_)
     if begin_var is None:
         ctx.violation(rule, producer, 'loop body: %s' % desc, 'no variable is advanced to offset + len(chunk) after each chunk', lp.lineno, clause='5')
         return
     B = '%s@phi%d' % (begin_var, n)
     ok = True
-    if len(parts_) != 2 or (emit_kind == 'append' and canon(emits[0].call.func.value) != canon(emits[1].call.func.value)):
+    if len(parts_) != 2 or (emit_kind == 'append' and hasattr(emits[0], 'call') and canon(emits[0].call.func.value) != canon(emits[1].call.func.value)):
         ctx.violation(rule, producer, 'loop body: %s' % desc, 'expected two parts per chunk (fill, then chunk)', lp.lineno, clause='5')
         return
     gap, chunk = parts_
@@ -411,6 +427,13 @@ def check_tobytes(ctx, repo, fr, tob, CM):
             break
     if not (isinstance(init_v, ast.Constant) and init_v.value == 0 and init_v.value is not False):
         ok = ctx.violation(rule, producer, '%s starts at %s' % (begin_var, canon(init_v) if init_v is not None else '?'), 'the walk does not start at position 0', producer.node.lineno, clause='5')
+    if emit_kind == 'augmented':
+        ret = p.ret()
+        want_acc = '%s@phi%dout' % (acc_var, n)
+        entry = lp.sub['entry'].get(acc_var)
+        if not (ret is not None and isinstance(ret, ast.Call) and isinstance(ret.func, ast.Attribute) and ret.func.attr == 'join' and isinstance(ret.func.value, ast.Constant)
+                and ret.func.value.value == b'' and len(ret.args) == 1 and canon(ret.args[0]) == want_acc and isinstance(entry, ast.List) and not entry.elts):
+            ok = ctx.violation(rule, producer, 'return %s' % (canon(ret) if ret is not None else None), "the result is not b''.join(parts) of the parts collected from an empty list in walk order", producer.node.lineno, clause='5')
     if emit_kind == 'append':
         acc = canon(emits[0].call.func.value)
         ret = p.ret()
